@@ -453,6 +453,9 @@ def rule_r7(p, res):
     r.check(any(isinstance(x, ast.Name) and x.id == ps for x in ast.walk(hp[0].value)), f, hp[0], "the half-pixel shift must be computed per axis from the patch shape")
 
 
+# rules of sibling properties over code paths this property's statement also quantifies over (DESIGN.md section 3, shared rules)
+ALSO = ['C01.R3', 'C01.R4']
+
 RULES = [rule_r1, rule_r2, rule_r3, rule_r4, rule_r5, rule_r6, rule_r7]
 
 _CROP_FIXED_GUARD = "if not (constrain_to_boundary or (all_max_bounded and all_min_bounded)):"
